@@ -3,8 +3,10 @@ package main
 import (
 	"encoding/json"
 	"fmt"
+	"io"
 	"math"
 	"reflect"
+	"strconv"
 	"strings"
 	"time"
 
@@ -320,7 +322,15 @@ type Wide struct {
 	J  bool `parquet:"j,optional"`
 }
 
-// the struct of the null-run sweep: one optional field per null-index kernel
+// the narrow struct of the exhaustive null-run sweep
+type SweepNarrow struct {
+	A int32    `parquet:"a,optional"`
+	S string   `parquet:"s,optional"`
+	U [16]byte `parquet:"u,optional"`
+	W int64    `parquet:"w,optional"`
+}
+
+// the wide struct of the null-run sweep: one optional field per null-index kernel
 type SweepRow struct {
 	I32 int32    `parquet:"i32,optional"`
 	I64 int64    `parquet:"i64,optional"`
@@ -453,7 +463,8 @@ func corpus(c *core.Ctx, byName map[string]*cat) {
 
 type sweepReplay struct {
 	Sweep  string `json:"sweep"`  // pattern as a string of 0 (null) / 1 (non-null), one per row
-	Invert bool   `json:"invert"` // odd columns use the complement
+	Invert bool   `json:"invert"` // some columns use the complement
+	Wide   bool   `json:"wide"`   // SweepRow (one optional column per null-index kernel) instead of SweepNarrow
 }
 
 type vmScan struct {
@@ -505,7 +516,7 @@ func sweepRowOf(nonnull bool, i int) SweepRow {
 // GenericWriter[T]) in ONE Write call and compares the null positions of every
 // column with the pattern, the values with the written ones, and the run
 // structure with the model's scanner.
-func sweepCheck(c *core.Ctx, s *sweepReplay, full bool) bool {
+func sweepWide(c *core.Ctx, s *sweepReplay, full bool) bool {
 	n := len(s.Sweep)
 	flags := make([]bool, n) // true = non-null
 	for i := range flags {
@@ -566,7 +577,11 @@ func sweepCheck(c *core.Ctx, s *sweepReplay, full bool) bool {
 				break
 			}
 		}
-		if ok && rowText(got) != rowText(want) {
+		same := len(got) == len(want)
+		for k := 0; same && k < len(got); k++ {
+			same = got[k] == want[k]
+		}
+		if ok && !same {
 			c.Violation("sweep-streams-differ", fmt.Sprintf("pattern %s (invert=%v) row %d: typed path [%s], Deconstruct [%s]", s.Sweep, s.Invert, i, rowText(got), rowText(want)), s)
 			ok = false
 		}
@@ -574,8 +589,18 @@ func sweepCheck(c *core.Ctx, s *sweepReplay, full bool) bool {
 	if full && ok {
 		ok = checkCase(c, ct, reflect.ValueOf(rows), nil, false)
 	}
-	// the model's scanner on the bitmap nullIndex builds for column 0
-	if c.HasOracle() && ok {
+	if ok {
+		ok = scanTie(c, s, flags)
+	}
+	return ok
+}
+
+// scanTie: the model's scanner on the bitmap nullIndex builds for column 0
+// must describe the pattern.
+func scanTie(c *core.Ctx, s *sweepReplay, flags []bool) bool {
+	n := len(flags)
+	ok := true
+	if c.HasOracle() {
 		words := bitsOf(flags)
 		var ws []string
 		for _, w := range words {
@@ -604,6 +629,88 @@ func sweepCheck(c *core.Ctx, s *sweepReplay, full bool) bool {
 		}
 	}
 	return ok
+}
+
+// sweepCheck writes the pattern through the typed path in ONE Write call and
+// compares null positions, levels and values of every column with what was
+// written, and the run structure with the model's scanner.
+func sweepCheck(c *core.Ctx, s *sweepReplay, full bool) bool {
+	if s.Wide {
+		return sweepWide(c, s, full)
+	}
+	n := len(s.Sweep)
+	flags := make([]bool, n) // true = non-null
+	rows := make([]SweepNarrow, n)
+	for i := range rows {
+		flags[i] = s.Sweep[i] == '1'
+		if flags[i] {
+			rows[i].A = int32(i + 1)
+			rows[i].S = "s" + strconv.Itoa(i)
+		}
+		if flags[i] != s.Invert {
+			rows[i].U[i%16] = byte(i%255 + 1)
+			rows[i].W = int64(i+1) << 33
+		}
+	}
+	var back []parquet.Row
+	res := guard(func() ([]parquet.Row, error) {
+		buf := parquet.NewGenericBuffer[SweepNarrow]()
+		if _, err := buf.Write(rows); err != nil {
+			return nil, err
+		}
+		rr := buf.Rows()
+		defer rr.Close()
+		back = make([]parquet.Row, n+1)
+		k, err := rr.ReadRows(back)
+		if err != nil && err != io.EOF {
+			return nil, err
+		}
+		back = back[:k]
+		return nil, nil
+	})
+	if res.err != "" || len(back) != n {
+		c.Violation("sweep-path-error", fmt.Sprintf("GenericBuffer[SweepNarrow].Write of pattern %s: %s (%d rows back)", s.Sweep, res.err, len(back)), s)
+		return false
+	}
+	for i, row := range back {
+		if len(row) != 4 {
+			c.Violation("sweep-streams-differ", fmt.Sprintf("pattern %s row %d has %d values", s.Sweep, i, len(row)), s)
+			return false
+		}
+		for _, v := range row {
+			col := v.Column()
+			nonnull := flags[i]
+			if col >= 2 {
+				nonnull = flags[i] != s.Invert
+			}
+			wantD := 0
+			if nonnull {
+				wantD = 1
+			}
+			if v.IsNull() == nonnull {
+				c.Violation("sweep-null-positions", fmt.Sprintf("pattern %s (invert=%v): row %d column %d read back null=%v but was written null=%v", s.Sweep, s.Invert, i, col, v.IsNull(), !nonnull), s)
+				return false
+			}
+			good := v.DefinitionLevel() == wantD && v.RepetitionLevel() == 0
+			if good && nonnull {
+				switch col {
+				case 0:
+					good = v.Int32() == rows[i].A
+				case 1:
+					good = string(v.ByteArray()) == rows[i].S
+				case 2:
+					good = string(v.ByteArray()) == string(rows[i].U[:])
+				case 3:
+					good = v.Int64() == rows[i].W
+				}
+			}
+			if !good {
+				c.Violation("sweep-streams-differ", fmt.Sprintf("pattern %s (invert=%v): row %d column %d read back %v (r=%d d=%d), written %+v", s.Sweep, s.Invert, i, col, v, v.RepetitionLevel(), v.DefinitionLevel(), rows[i]), s)
+				return false
+			}
+		}
+	}
+	return scanTie(c, s, flags)
 }
 
 var sweepCatV *cat
@@ -653,14 +760,15 @@ func runSweep(c *core.Ctx) {
 			}
 		}
 	}
-	run := func(p pat, off int, invert bool, full bool) {
+	run := func(p pat, off int, invert bool, wide bool, full bool) {
 		body := mkPat(p)
 		// the rows before the pattern hold the complement of its first row
 		pre := "1"
 		if body[0] == '1' {
 			pre = "0"
 		}
-		s := &sweepReplay{Sweep: strings.Repeat(pre, off) + body, Invert: invert}
+		s := &sweepReplay{Sweep: strings.Repeat(pre, off) + body, Invert: invert, Wide: wide}
+		full = full && wide
 		if c.Probe(func() { sweepCheck(c, s, full) }) {
 			// shrink: drop rows from the end, then from the front
 			cur := *s
@@ -682,18 +790,18 @@ func runSweep(c *core.Ctx) {
 			}
 			sweepCheck(c, &cur, full)
 		}
-		c.Case("sweep", fmt.Sprintf("%s/%v", s.Sweep, invert), true)
+		c.Case("sweep", fmt.Sprintf("%s/%v/%v", s.Sweep, invert, wide), true)
 	}
 	if c.Quick() {
 		k := c.N(2500, 0)
 		for i := 0; i < k; i++ {
 			p := pats[c.Rng.Intn(len(pats))]
-			run(p, c.Rng.Intn(64), i%4 == 3, i%50 == 0)
+			run(p, c.Rng.Intn(64), i%4 == 3, i%3 == 0, i%50 == 0)
 		}
 		// every run length 1..130 at a sample of in-word offsets
 		for l := 1; l <= 130; l++ {
 			for _, off := range []int{c.Rng.Intn(64), 63} {
-				s := &sweepReplay{Sweep: strings.Repeat("0", off) + strings.Repeat("1", l) + "0", Invert: l%2 == 0}
+				s := &sweepReplay{Sweep: strings.Repeat("0", off) + strings.Repeat("1", l) + "0", Invert: l%2 == 0, Wide: l%4 == 1}
 				sweepCheck(c, s, false)
 				c.Case("sweep-runs", s.Sweep, true)
 			}
@@ -704,7 +812,7 @@ func runSweep(c *core.Ctx) {
 	cnt := 0
 	for _, p := range pats {
 		for off := 0; off < 64; off++ {
-			run(p, off, (cnt/7)%5 == 4, cnt%997 == 0)
+			run(p, off, (cnt/7)%5 == 4, cnt%23 == 0, cnt%997 == 0)
 			cnt++
 		}
 	}
@@ -715,7 +823,7 @@ func runSweep(c *core.Ctx) {
 				if first == "1" {
 					second = "0"
 				}
-				s := &sweepReplay{Sweep: strings.Repeat(first, off) + strings.Repeat(second, l) + first, Invert: (l+off)%3 == 0}
+				s := &sweepReplay{Sweep: strings.Repeat(first, off) + strings.Repeat(second, l) + first, Invert: (l+off)%3 == 0, Wide: (l+off)%16 == 0}
 				if !sweepCheck(c, s, false) {
 					cnt++
 				}
@@ -723,7 +831,7 @@ func runSweep(c *core.Ctx) {
 			}
 		}
 	}
-	c.Note("null-run sweep exhaustive: all %d single-word patterns with <= 3 runs x all 64 in-word offsets; every run length 1..130 at every in-word offset, both polarities", len(pats))
+	c.Note("null-run sweep exhaustive: all %d single-word patterns with <= 3 runs x all 64 in-word offsets on a 4-column struct (int32, string, [16]byte, int64 kernels), every 23rd also on the 14-column struct covering every null-index kernel; every run length 1..130 at every in-word offset, both polarities", len(pats))
 }
 
 var _ = json.Marshal
